@@ -1,5 +1,6 @@
 import ZenonVerif.Model.Versioned
 import ZenonVerif.Lemmas.KvLogic
+import ZenonVerif.Lemmas.KvOrder
 /-
 C07 — versioned store: a view at commit X shows exactly the state as of X. Property theorems only.
 (C06-T2 `rollback_exact` lives in Props/C06.lean.)
@@ -74,6 +75,66 @@ theorem write_visible (top : Raw) (o : Op) (x : Bytes) :
   cases o with
   | put k v => simp only [applyOp, Op.key]; by_cases h : x = k <;> simp [h]
   | del k => simp only [applyOp, Op.key]; by_cases h : x = k <;> simp [h]
+
+
+/-! ### T5 — the merged iterator and the scans of the two kinds of roots -/
+
+/-- T5 `merged_scan_correct`: over layers in key order, the merged iterator of the two prefix iterators
+    (first layer wins on equal keys) is the key-ordered list of exactly the entries `(k, v)` with `k` under the
+    prefix and `v` the answer of the merged lookup (`mergedDB.Get`) for `k`. -/
+theorem merged_scan_correct {a b : Raw} (ha : Sorted a) (hb : Sorted b) (p : Bytes) :
+    OrderedEntries (merge2 (rscan a p) (rscan b p)) (fun k v => isPrefix p k = true ∧ mget2 a b k = some v) :=
+  merged_scan_entries ha hb p
+
+/-- T5, iterator form: merging the prefix iterators = prefix iterator of the merge -/
+theorem merged_scan_commutes {a b : Raw} (ha : Sorted a) (hb : Sorted b) (p : Bytes) :
+    merge2 (rscan a p) (rscan b p) = rscan (merge2 a b) p := merge2_rscan ha hb p
+
+/-- the specification `OrderedEntries l P` determines the list `l` -/
+theorem scan_spec_unique {l l' : Raw} {P : Bytes → Bytes → Prop}
+    (h : OrderedEntries l P) (h' : OrderedEntries l' P) : l = l' := h.unique h'
+
+/-- the merged lookup agrees with the merged iterator, key by key -/
+theorem merged_get_scan_agree {a b : Raw} (ha : Sorted a) (hb : Sorted b) (k : Bytes) :
+    rget (merge2 a b) k = mget2 a b k := rget_merge2 ha hb k
+
+/-- scan through a historical root (rollback overlay over the frontier snapshot, skipDeleted, enableDelete):
+    the key-ordered list of exactly the entries of the viewed version under the prefix — EXCEPT those holding
+    the empty value (known finding F3b: `skipDeletedIterator` drops raw values of length ≤ 1, i.e. tombstones
+    and present-but-empty values alike). -/
+theorem hist_scan_spec_partial {rb base : Raw} (hrb : Sorted rb) (hbase : Sorted base) (p : Bytes) :
+    OrderedEntries (edEntries ((Root.hist rb base).rawScan p))
+      (fun k v => isPrefix p k = true ∧ viewOf (oabs rb) (abs base) k = some v ∧ v ≠ []) :=
+  hist_scan_entries hrb hbase p
+
+/-- scan through the frontier root: the key-ordered list of exactly the entries under the prefix -/
+theorem front_scan_spec {base : Raw} (hbase : Sorted base) (p : Bytes) :
+    OrderedEntries (edEntries ((Root.front base).rawScan p))
+      (fun k v => isPrefix p k = true ∧ abs base k = some v) :=
+  front_scan_entries hbase p
+
+/-- N2 (F3b, general form): a key that holds the empty value in the viewed version is found by `Get`/`Has`
+    but is missing from every scan of the historical view. -/
+theorem hist_scan_drops_empty_value {rb base : Raw} (hrb : Sorted rb) (hbase : Sorted base) (p k : Bytes)
+    (hk : (Root.hist rb base).get k = some []) :
+    ∀ v, (k, v) ∉ edEntries ((Root.hist rb base).rawScan p) := by
+  intro v hv
+  have h := ((hist_scan_spec_partial hrb hbase p).2 k v).1 hv
+  rw [hist_get_refines] at hk
+  rw [hk] at h
+  exact h.2.2 (Option.some.inj h.2.1).symm
+
+/-- N2 (F3b, concrete witness): key `[9]` holds the empty value at X; a later commit created key `[11]`.
+    The view at X answers `Get [9] = ""` but its scan is empty, whereas the same content scanned at the frontier
+    root lists the key. -/
+theorem hist_scan_drops_empty_value_witness :
+    let rb : Raw := [([11], [])]
+    let base : Raw := [([9], [0]), ([11], [0, 1])]
+    (Root.hist rb base).get [9] = some [] ∧
+    edEntries ((Root.hist rb base).rawScan []) = [] ∧
+    edEntries ((Root.front [([9], [0])]).rawScan []) = [([9], [])] := by
+  refine ⟨by decide, ?_, by decide⟩
+  simp [Root.rawScan, rscan, isPrefix, merge2, bytesLt, skipDel, edEntries]
 
 /-- non-vacuity: a concrete two-commit history; the view at the first version hides the later write and deletion -/
 example :
